@@ -115,3 +115,13 @@ impl<T: fmt::Display> Matrix<T> {
         }
     }
 }
+
+
+#[cfg(feature = "verif")]
+impl<T> Matrix<T> {
+    /// Verification hook: length of the private storage vector.
+    #[inline]
+    pub fn verif_storage_len(&self) -> usize {
+        self.mat.len()
+    }
+}
